@@ -529,7 +529,7 @@ func ForwardReach(from *ssa.BasicBlock, assign map[ssa.Value]bool, stop func(*ss
 								env = st.env.clone()
 								cloned = true
 							}
-							env.phi[phi] = env.resolve(phi.Edges[i])
+							env.phi[phi] = loopCarried(s, phi, env.resolve(phi.Edges[i]))
 						}
 					}
 				}
@@ -575,7 +575,7 @@ func ForwardReach(from *ssa.BasicBlock, assign map[ssa.Value]bool, stop func(*ss
 							env = st.env.clone()
 							cloned = true
 						}
-						env.phi[phi] = env.resolve(phi.Edges[i])
+						env.phi[phi] = loopCarried(s, phi, env.resolve(phi.Edges[i]))
 					}
 				}
 			}
@@ -1230,3 +1230,15 @@ func ConstFloat(v ssa.Value) (float64, bool) {
 
 // ExpandBoolPhi lists the atoms deciding an If condition (negations stripped, boolean phis expanded).
 func ExpandBoolPhi(c ssa.Value) []ssa.Value { return expandBoolPhi(c, 0) }
+
+// loopCarried: a phi of a loop header also receives values over the back edges this walk does not follow; on entry
+// it is therefore unknown (the phi itself), not the value of the entry edge — unless every back edge carries that
+// same value.
+func loopCarried(s *ssa.BasicBlock, phi *ssa.Phi, entry ssa.Value) ssa.Value {
+	for i, p := range s.Preds {
+		if backEdge(p, s) && phi.Edges[i] != entry && phi.Edges[i] != ssa.Value(phi) {
+			return phi
+		}
+	}
+	return entry
+}
